@@ -39,7 +39,7 @@ MC_QUICK = {
     "C14": ["queuer", "sticky", "keyp", "rr", "custom"],
     "C15": ["queuer", "drain", "rl", "rr", "keyp"],
 }
-MC_THOROUGH = ["big_queuer", "big_keyp", "big_sticky"]
+MC_THOROUGH = ["big_queuer", "big_keyp", "big_sticky", "big_rr", "big_rl", "big_custom"]
 # vacuity: each of these must be VIOLATED (the situation is reachable in the closed model)
 REACH = {
     "C13": [("sticky", "NeverStale")],
